@@ -364,6 +364,7 @@ def escaping_view_rule(repo: Repo, prop: str, rule_id: str, module_prefixes, flo
     r = RuleRun(prop, rule_id, floor=floor, what="coordinates a constructor keeps (attribute or closure) are private copies (np.array), not views of the caller's array (np.asarray)")
     array_types = ("PointType", "PointListType", "VectorType", "NPPointType", "NPPointListType", "NPVectorType")
     raw = 0
+    raw_list = []
     for fn in sorted(repo.all_functions(), key=lambda f: f.qualname):
         short = fn.module.name[len("classy_blocks.") :] if fn.module.name.startswith("classy_blocks.") else fn.module.name
         if fn.cls is None or fn.name != "__init__" or not any(short.startswith(p) for p in module_prefixes):
@@ -383,34 +384,48 @@ def escaping_view_rule(repo: Repo, prop: str, rule_id: str, module_prefixes, flo
                     if isinstance(n.value, ast.Call) and n.value.args and isinstance(n.value.args[0], ast.Name) and n.value.args[0].id in arr:
                         converted[name] = n
                     alias[name] = set(rs) if strong else alias.get(name, set()) | rs
-        # escapes: names used inside nested functions / lambdas, or stored on self
-        escaping: Dict[str, ast.AST] = {}
+        # escapes: names used inside nested functions / lambdas, or values stored on self - judged by what they alias
+        arr_pts = {a.arg for a in fn.node.args.args[1:] if a.arg in arr and "Callable" not in ast.unparse(a.annotation)}
+        escapes: List[Tuple[str, str, Set[str], ast.AST]] = []
         for n in ast.walk(fn.node):
             if isinstance(n, (ast.Lambda, ast.FunctionDef)) and n is not fn.node:
+                own = {a.arg for a in n.args.args}
+                seen_names = set()
                 for x in ast.walk(n):
-                    if isinstance(x, ast.Name) and isinstance(x.ctx, ast.Load) and x.id in alias:
-                        escaping.setdefault(x.id, n)
+                    if isinstance(x, ast.Name) and isinstance(x.ctx, ast.Load) and x.id in alias and x.id not in own and x.id not in seen_names:
+                        seen_names.add(x.id)
+                        escapes.append((x.id, "in a closure", alias.get(x.id, set()) & arr_pts, n))
             if isinstance(n, ast.Assign) and any(isinstance(t, ast.Attribute) and attr_chain(t.value) == fn.params[0] for t in n.targets):
-                for x in ast.walk(n.value):
-                    if isinstance(x, ast.Name) and x.id in alias:
-                        escaping.setdefault(x.id, n)
-        for name, where in sorted(escaping.items()):
-            roots = alias.get(name, set()) & arr
-            if name in converted:
-                r.check(
-                    not roots,
-                    fn,
-                    f"'{name}' kept for later is a private copy ('{ast.unparse(converted[name])[:50]}')",
-                    f"{fn.qualname} keeps '{name}' for later ({'in a closure' if isinstance(where, (ast.Lambda, ast.FunctionDef)) else 'in an attribute'}) after '{ast.unparse(converted[name])[:60]}', which does not copy an "
-                    f"ndarray: the kept geometry is the caller's own array ({sorted(roots)[0] if roots else ''}). Callers pass vertex.position, which backport()/move_to change in place - the clamp's "
-                    "line / the link's reference point then moves with the vertex between two optimize() calls",
-                    converted[name],
-                    key=f"kept:{name}",
-                )
-            elif roots:
-                raw += 1
-    r.note(f"{raw} array parameter(s) kept without any conversion are not judged (callers pass literals there)")
+                tgt = next(t for t in n.targets if isinstance(t, ast.Attribute))
+                touched = {x.id for x in ast.walk(n.value) if isinstance(x, ast.Name) and x.id in alias and alias.get(x.id, set()) & arr_pts}
+                if touched or (eff.roots(n.value, alias) & arr_pts):
+                    escapes.append((f"self.{tgt.attr}", "in an attribute", eff.roots(n.value, alias) & arr_pts, n))
+        for name, how, roots, where in escapes:
+            key = f"kept:{name}"
+            if (fn.qualname, name) in SHARED_BY_DESIGN:
+                r.ok(fn, f"'{name}' is shared storage by design ({SHARED_BY_DESIGN[(fn.qualname, name)]})", key=key)
+                continue
+            conv = converted.get(name)
+            r.check(
+                not roots,
+                fn,
+                f"'{name}' kept {how} is a private copy",
+                f"{fn.qualname} keeps '{name}' for later ({how})"
+                + (f" after '{ast.unparse(conv)[:60]}', which does not copy an ndarray" if conv is not None else " without copying it")
+                + f": the kept geometry is the caller's own array ({sorted(roots)[0] if roots else ''}). Callers pass vertex.position, which backport()/move_to change in place - the clamp's "
+                "line / circle centre / the link's reference point then moves with the vertex between two optimize() calls (its siblings copy with np.array)",
+                conv if conv is not None else where,
+                key=key,
+            )
     return r
+
+
+# (constructor, kept name) -> why the constructor is meant to keep the caller's array
+SHARED_BY_DESIGN = {
+    ("optimize.grid.GridBase.__init__", "self.points"): "the grid's one point array; GridBase.update writes it in place for cells and junctions",
+    ("optimize.cell.CellBase.__init__", "self.grid_points"): "a cell reads the grid's point array",
+    ("optimize.junction.Junction.__init__", "self.points"): "a junction reads the grid's point array",
+}
 
 
 def class_state_rule(repo: Repo, prop: str, rule_id: str, floor: int = 5) -> RuleRun:
